@@ -38,8 +38,42 @@ class Verifier(Engine):
             self.finish_path(s, sig)
         return self.obligations
 
+    def check_hint_anchors(self):
+        """Every hint of the sidecar must be anchored at a site the source still has (an assignment to
+        that name with that ordinal, a store, a return).  A hint that no longer applies - a renamed
+        local, a removed statement - would silently turn proved obligations into undecided ones;
+        it is reported as an anchoring error (undecided), never as a violation."""
+        if self.concrete:
+            return
+        sites = set(self.fi.sites.values())
+        assigned = {}
+        for lab in sites:
+            if lab.startswith("assign[") and ":" in lab:
+                k, name = lab[len("assign["):].split("]:", 1)
+                assigned.setdefault(name, set()).add(int(k))
+        for sub in ast.walk(self.fi.node):
+            if isinstance(sub, ast.AugAssign) and isinstance(sub.target, ast.Name):
+                assigned.setdefault(sub.target.id, set())
+        for key in self.contract.hints:
+            base, _, rest = key.partition("[")
+            if base == "return":
+                if rest and ("return[" + rest) not in sites:
+                    raise AnchorError("%s: hint anchored at %s, which the source does not have" % (self.contract.name, key))
+                continue
+            if base == "store":
+                if key not in sites:
+                    raise AnchorError("%s: hint anchored at %s, which the source does not have" % (self.contract.name, key))
+                continue
+            if base not in assigned:
+                raise AnchorError("%s: hint anchored at an assignment to `%s`, which the source does not have"
+                                  % (self.contract.name, base))
+            if rest and int(rest.rstrip("]")) not in assigned[base]:
+                raise AnchorError("%s: hint anchored at assignment %s of `%s`, which the source does not have"
+                                  % (self.contract.name, rest.rstrip("]"), base))
+
     def setup_entry(self, st):
         c = self.contract
+        self.check_hint_anchors()
         args = self.fi.node.args
         names = [a.arg for a in args.args] + [a.arg for a in args.kwonlyargs]
         if args.kwarg is not None:
